@@ -116,6 +116,17 @@ def run(tier):
                'exhaustive': False, 'pipeline_model': pm, 'case_enumeration': dict(en, cases_total=len(cases), cases_run=len(chosen)),
                'run': {k: out[k] for k in ('requests', 'random_queries', 'child_restarts', 'signature_counts', 'chsql_unsupported')},
                'explanation': 'parameter classes x good queries and fault positions exhaustive in the thorough tier (seeded subset in quick); query strings beyond the classes are sampled'}
+        if tier == 'thorough':
+            # the live tail is a read endpoint the recorder-based sweep cannot drive (hijacked websocket): the extra check X01
+            # (Tail.tla + real controller over a websocket, goroutine census, trace validation) belongs to this property's deep tier
+            import props.x01 as x01
+            xr = x01.run('quick')
+            for v in xr['violations']:
+                viols.append(dict(v, property='C12', signature='tail|' + v['signature']))
+            cov['tail_x01'] = {k: xr['coverage'].get(k) for k in ('states', 'transitions', 'traces_validated_against_impl')}
+            cov['states'] += xr['coverage'].get('states', 0)
+            cov['transitions'] += xr['coverage'].get('transitions', 0)
+            cov['traces_validated_against_impl'] += xr['coverage'].get('traces_validated_against_impl', 0)
         return {'level': 'model_checking', 'coverage': cov, 'violations': viols,
                 'assumptions': ['the reader router runs in a child process over fakesql answered by chsql; a died child = process crash',
                                 'time limit 6 s per request; goroutine census 60 ms after the response counts goroutines with frames in reader/ that are not permanent service loops',
